@@ -279,6 +279,9 @@ def check_specforms(case) -> Outcome:
         forms.append(("list", lambda: Formula(spec)))
         forms.append(("from_spec-list", lambda: Formula.from_spec(spec)))
         forms.append(("term-objects", lambda: Formula(list(f0))))
+        # a list mixing hand-built Term objects and strings (alternating; the order of the list is the order of the terms)
+        forms.append(("mixed-terms-and-strings", lambda: Formula([t if i % 2 == 0 else str_ for i, (t, str_) in enumerate(zip(list(f0), spec))])))
+        forms.append(("mixed-strings-and-terms", lambda: Formula.from_spec([t if i % 2 == 1 else str_ for i, (t, str_) in enumerate(zip(list(f0), spec))])))
         out.label("form:list")
     for name, mk in forms:
         try:
